@@ -6,7 +6,7 @@ from . import gridgen
 
 def check():
     return solvercheck.run(
-        "C08", None,
+        "C08", "C08.v",
         [dict(profile=PROFILES["events"], n_quick=300, n_thorough=5000),
          dict(builder=gridgen.event_builder, n_quick=240, n_thorough=4000)],
         [oracles.oracle_C08, oracles.oracle_shapes, oracles.oracle_C09], TB,
